@@ -5,6 +5,7 @@ mod con;
 mod e2e;
 mod idx;
 mod maps;
+mod pg;
 mod proto;
 mod rng;
 mod table;
@@ -30,6 +31,8 @@ fn main() {
         "topo" => topo::run(seed, thorough),
         "e2e.str" => e2e::run_strings(seed, thorough, if thorough { 20000 } else { 1200 }),
         "e2e.mat" => e2e::run_matrices(seed, thorough, if thorough { 15000 } else { 900 }),
+        "e2e.pg" => pg::run_e2e(seed, thorough, if thorough { 12000 } else { 700 }),
+        "pg.stages" => pg::run_stages(seed, thorough),
         "e2e.table" => e2e::run_table(seed, thorough, if thorough { 20000 } else { 1200 }),
         _ => {
             eprintln!("unknown stage {stage}");
